@@ -425,6 +425,11 @@ def order_method(ctx, rule, fn, vis, who):
     return n
 
 
+def kind_deep_(fn, operand):
+    from .c03 import kind_deep
+    return kind_deep(fn, operand)
+
+
 SHORT_CIRCUIT = ("try_fold", "try_for_each", "try_rfold", "try_collect")
 
 
@@ -640,33 +645,62 @@ def c16(ctx):
     else:
         rep.analysed(ca)
         tf = [(bi, t) for bi, t in ca.calls() if (callee_def(t) or "").endswith("Iterator::try_fold")]
-        ok = len(tf) == 1
-        why = "" if ok else "expected one Iterator::try_fold call, found %d" % len(tf)
-        if ok:
-            bi, t = tf[0]
-            init = origins(ca, t["args"][1])
-            init_calls = [ca.term(d[1]) for d, _ in init if d[0] == "call"]
-            if not (len(init_calls) == 1 and (callee_def(init_calls[0]) or "").endswith("Default::default")):
-                ok, why = False, "the fold does not start from Default::default()"
-            if t["dest"]["l"] != 0:
-                ok, why = False, "the fold result is not returned unchanged"
-        rep.ob("C16.R4", "combine_all::try_fold", ok, why, ca.loc(), how="try_fold(Default::default(), ..) returned")
-        # the innermost closure must call combine(acc, x)
         comb = []
         for body in F.with_closures(ca):
             for bi, t in body.calls():
                 if (callee_def(t) or "").endswith("Combine::combine"):
                     comb.append((body, bi, t))
-        ok = len(comb) == 1
-        why = "" if ok else "expected one Combine::combine call under combine_all, found %d" % len(comb)
-        if ok:
-            body, bi, t = comb[0]
-            a0 = origins(body, t["args"][0])
-            a1 = origins(body, t["args"][1])
-            # accumulator is captured (closure environment, local 1); the new element is the closure parameter (local 2)
-            if not any(d[0] == "param" and d[1] == 1 for d, _ in a0):
-                ok, why = False, "the accumulator is not the left operand of combine"
-            if not any(d[0] == "param" and d[1] == 2 for d, _ in a1):
-                ok, why = False, "the new element is not the right operand of combine"
-        rep.ob("C16.R4", "combine_all::combine-order", ok, why, ca.loc(), how="acc.combine(x)")
+        if tf:
+            # shape A: iter.try_fold(T::default(), |acc, x| x.map(|x| acc.combine(x)))
+            ok = len(tf) == 1
+            why = "" if ok else "expected one Iterator::try_fold call, found %d" % len(tf)
+            if ok:
+                bi, t = tf[0]
+                init = origins(ca, t["args"][1])
+                init_calls = [ca.term(d[1]) for d, _ in init if d[0] == "call"]
+                if not (len(init_calls) == 1 and (callee_def(init_calls[0]) or "").endswith("Default::default")):
+                    ok, why = False, "the fold does not start from Default::default()"
+                if t["dest"]["l"] != 0:
+                    ok, why = False, "the fold result is not returned unchanged"
+            rep.ob("C16.R4", "combine_all::try_fold", ok, why, ca.loc(), how="try_fold(Default::default(), ..) returned")
+            ok = len(comb) == 1
+            why = "" if ok else "expected one Combine::combine call under combine_all, found %d" % len(comb)
+            if ok:
+                body, bi, t = comb[0]
+                a0 = origins(body, t["args"][0])
+                a1 = origins(body, t["args"][1])
+                # accumulator is captured (closure environment, local 1); the new element is the closure parameter (local 2)
+                if not any(d[0] == "param" and d[1] == 1 for d, _ in a0):
+                    ok, why = False, "the accumulator is not the left operand of combine"
+                if not any(d[0] == "param" and d[1] == 2 for d, _ in a1):
+                    ok, why = False, "the new element is not the right operand of combine"
+            rep.ob("C16.R4", "combine_all::combine-order", ok, why, ca.loc(), how="acc.combine(x)")
+        else:
+            # shape B: an explicit loop -- acc = T::default(); for x in iter { acc = acc.combine(x?) }; Ok(acc)
+            defaults = [bi for bi, t in ca.calls() if (callee_def(t) or "").endswith("Default::default")]
+            nexts = [bi for bi, t in ca.calls() if t["callee"].get("name") == "next"]
+            top_comb = [(bi, t) for body, bi, t in comb if body.path == ca.path]
+            ok = len(defaults) == 1 and len(nexts) == 1 and len(top_comb) == 1 and len(comb) == 1
+            why = "" if ok else "neither try_fold nor a recognisable loop (one Default::default, one next, one combine): %d / %d / %d" % (len(defaults), len(nexts), len(comb))
+            if ok:
+                cb, ct = top_comb[0]
+                acc_src = {d for d, _ in origins(ca, ct["args"][0])}
+                if not acc_src <= {("call", defaults[0]), ("call", cb)} or ("call", defaults[0]) not in acc_src:
+                    ok, why = False, "the left operand of combine is not the accumulator started from Default::default()"
+                item = kind_deep_(ca, ct["args"][1])
+                if ok and not any(d == ("call", nexts[0]) for d, _ in item):
+                    ok, why = False, "the right operand of combine is not the element drawn from the iterator"
+                # the element is checked with `?` before it is combined
+                brs = [bi for bi, t in ca.calls() if (callee_def(t) or "") == "std::ops::Try::branch" and any(d == ("call", nexts[0]) for d, _ in kind_deep_(ca, t["args"][0]))]
+                if ok and not any(ca.dominates(b_, cb) for b_ in brs):
+                    ok, why = False, "the element is not checked with `?` before it is combined: the fold does not stop at the first error"
+                # Ok(acc) returned
+                rets = [(bi, si, st) for bi, si, st in ca.assigns() if st["pl"]["l"] == 0 and isinstance(st["rv"].get("agg"), dict) and st["rv"]["agg"].get("variant") == "Ok"]
+                if ok and not (rets and all({d for d, _ in origins(ca, st["rv"]["ops"][0])} <= {("call", defaults[0]), ("call", cb)} for _, _, st in rets)):
+                    ok, why = False, "the accumulator is not what combine_all returns"
+                # the loop goes forward over the iterator that was passed in
+                if ok and any(t["callee"].get("name") in ("rev", "next_back") for bi, t in ca.calls()):
+                    ok, why = False, "the iterator is consumed backwards"
+            rep.ob("C16.R4", "combine_all::try_fold", ok, why, ca.loc(), how="loop from Default::default(), `?` on every element, Ok(acc)")
+            rep.ob("C16.R4", "combine_all::combine-order", ok, why, ca.loc(), how="acc = acc.combine(x?)")
     common.errflow(ctx, "C16.R4", lambda fn: fn.file.endswith("analysis/visit.rs"), forbid_map_err=True)
